@@ -29,21 +29,33 @@ class HarnessError(Exception):
 
 class Claim:
     """lhs (kind) rhs; kind in eq, le, lt, ge, gt, ne; label identifies the obligation"""
-    __slots__ = ("label", "lhs", "rhs", "kind", "tol", "extra", "alt")
+    __slots__ = ("label", "lhs", "rhs", "kind", "tol", "extra", "alt", "guard")
 
-    def __init__(self, label, lhs, rhs, kind="eq", tol=None, extra=(), alt=()):
+    def __init__(self, label, lhs, rhs, kind="eq", tol=None, extra=(), alt=(), guard=None):
         self.label, self.lhs, self.rhs, self.kind, self.tol = label, lhs, rhs, kind, tol
+        self.guard = guard  # optional (lhs, kind, rhs): the claim is  guard => lhs kind rhs
         self.extra = tuple(extra)  # additional assumptions (z3 Bool) for this claim only
         self.alt = tuple(alt)  # equivalent reformulations (Claims) tried when the solver answers unknown
 
 
+_REL = {"eq": V.eq, "le": V.le, "lt": V.lt, "ge": V.ge, "gt": V.gt, "ne": V.ne}
+
+
 def claim_formula(c: Claim):
-    k = c.kind
-    f = {"eq": V.eq, "le": V.le, "lt": V.lt, "ge": V.ge, "gt": V.gt, "ne": V.ne}[k]
-    return f(c.lhs, c.rhs)
+    f = _REL[c.kind](c.lhs, c.rhs)
+    if c.guard is not None:
+        gl, gk, gr = c.guard
+        return z3.Implies(_REL[gk](gl, gr), f)
+    return f
 
 
 def claim_holds_num(c: Claim, tol):
+    if c.guard is not None:
+        gl, gk, gr = c.guard
+        gd = mp.mpf(gl) - mp.mpf(gr)
+        gok = {"eq": gd == 0, "le": gd <= 0, "lt": gd < 0, "ge": gd >= 0, "gt": gd > 0, "ne": gd != 0}[gk]
+        if not gok:
+            return True, 0.0
     a, b = c.lhs, c.rhs
     t = c.tol if c.tol is not None else tol
     try:
